@@ -4,7 +4,7 @@
 tier=${1:-quick}; nw=${2:-4}
 export GOFLAGS=-mod=mod GOPROXY=off GOSUMDB=off GOTOOLCHAIN=local
 mkdir -p /tmp/mut
-ls -d /verif/seeded/*/ > /tmp/mut/sweep_list.txt
+rm -f /tmp/mut/sweep_*.out; ls -d /verif/seeded/*/ > /tmp/mut/sweep_list.txt
 worker() {
   k=$1; wt=/tmp/mut/sw$k; i=0
   git -C /repo worktree remove --force $wt 2>/dev/null; git -C /repo worktree prune
